@@ -122,7 +122,7 @@ func VxSoup_Select4() { vxSoup("SELECT", VxHostileTable, 4) }
 func VxSoup_From3()   { vxSoup("SELECT a FROM", VxHostileTable, 3) }
 func VxSoup_From4()   { vxSoup("SELECT a FROM", VxHostileTable, 4) }
 
-// ---- truncations: every prefix of a corpus of construct-rich statements, continued by <= maxK
+// ---- truncations: every prefix of a corpus of construct-rich (and degenerate: empty lists, empty constructors) statements, continued by <= maxK
 // symbolic tokens (the classic place for "loop until ')'" productions to miss the end of input)
 
 var vxCutCorpus = []string{
@@ -160,6 +160,16 @@ var vxCutCorpus = []string{
 	"SELECT DISTINCT ON ( a ) a , b FROM t WINDOW w AS ( PARTITION BY a )",
 	"SELECT LISTAGG ( a , ',' ) WITHIN GROUP ( ORDER BY a ) FROM t",
 	"SELECT a :: INT , - b , NOT c , ( d , e ) , f || g FROM t WHERE ( a , b ) IN ( ( 1 , 2 ) )",
+	// empty and degenerate constructs
+	"SELECT ARRAY [ ] , ARRAY ( SELECT 1 ) , COUNT ( ) , f ( * ) , ( ) FROM t",
+	"SELECT a FROM t WHERE a IN ( ) OR EXISTS ( ) GROUP BY ( ) , GROUPING SETS ( ( ) )",
+	"INSERT INTO t ( ) VALUES ( ) , ( )",
+	"INSERT INTO t DEFAULT VALUES",
+	"CREATE TABLE t ( )",
+	"WITH c AS ( ) SELECT 1",
+	"SELECT CASE END , CASE WHEN 1 THEN 2 END , CAST ( a AS ) FROM t",
+	"SELECT a FROM t LEFT JOIN u ON t . a = u . a JOIN v ON u . b = v . b CROSS JOIN w JOIN x USING ( a )",
+	"INSERT INTO t ( a , b ) VALUES ( 1 , 2 ) , ( 3 , 4 ) , ( 5 , 6 )",
 }
 
 var vxCutToks = func() [][]token.Token {
